@@ -26,8 +26,12 @@ QInt(i) == <<i, 1>>
 QNum(a) == a[1]
 QDen(a) == a[2]
 
+\* over the least common denominator (keeps intermediate products small)
 QAdd(a, b) == IF a[2] = b[2] THEN QMake(a[1] + b[1], a[2])
-              ELSE QMake(a[1] * b[2] + b[1] * a[2], a[2] * b[2])
+              ELSE LET g == GCD(a[2], b[2])
+                       ka == b[2] \div g
+                       kb == a[2] \div g
+                   IN  QMake(a[1] * ka + b[1] * kb, a[2] * ka)
 QNeg(a)    == <<-a[1], a[2]>>
 QSub(a, b) == QAdd(a, QNeg(b))
 QMul(a, b) == LET g1 == GCD(IAbs(a[1]), b[2])
